@@ -34,8 +34,10 @@ NOTE = ("Trusted: the fault-injecting wrapper around the file object returned by
 GRAMMARS = {
     "g1": "Model: shapes+=Shape; Shape: Circle | Box; Circle: 'circle' name=ID r=INT; Box: 'box' name=ID ('in' parent_box=[Box])?; Num: INT | FLOAT;",
     "g2": "Model: 'm' name=ID items*=Item; Item: name=ID '=' val=STRING;",
+    # multi-file models: the export writes one cluster per model of the repository
+    "g3": "Model: imports*=Import items*=Item; Import: 'import' importURI=STRING; Item: 'i' name=ID ('->' ref=[Item])?;",
 }
-MODELS = {"g1": ["circle c 3 box b box d in b"], "g2": ['m top a = "x|{y}" b = "z"']}
+MODELS = {"g1": ["circle c 3 box b box d in b"], "g2": ['m top a = "x|{y}" b = "z"'], "g3": ['import "lib.mod" i a -> b i c -> a']}
 
 
 class Fail(OSError):
@@ -104,6 +106,7 @@ def norm(text):
 
     def rep(m):
         return ids.setdefault(m.group(0), "ID%d" % len(ids))
+    text = re.sub(r"/[^\s\"]*/c31-\d+-\w+/", "<dir>/", text)  # cluster labels carry the model file's path
     return re.sub(r"\b\d{9,}\b", rep, text)
 
 
@@ -127,6 +130,12 @@ def run_generator(kind, gk, mi, d, overwrite):
     with open(gfile, "w") as f:
         f.write(GRAMMARS[gk])
     mm = metamodel_from_file(gfile)
+    if gk == "g3":
+        from textx.scoping.providers import PlainNameImportURI
+
+        mm.register_scope_providers({"*.*": PlainNameImportURI()})
+        with open(os.path.join(d, "in", "lib.mod"), "w") as f:
+            f.write("i b i e -> b")
     if kind == "any-dot":
         mfile = os.path.join(d, "in", "%s_%d.mod" % (gk, mi))
         with open(mfile, "w") as f:
